@@ -192,6 +192,8 @@ def replay_take(scn, variants, signature, extra_variants=()):
                         what = A.compare(e2, act) or None
                     except A.Unprojectable as e:
                         what = "result not projectable: %s" % e
+                    if what is None and vi == 0 and sp not in OPTION_SPELLINGS:      # (arrays built under another 'indexing.by' keep that default by design)
+                        what = A.second_step_probe(res)      # the result is an array in its own right: default indexing on it means the same
             else:
                 if err is None:
                     what = "expected %s, got a result" % exp["err"]
